@@ -23,6 +23,8 @@ INPLACE_METHODS = {"sort", "fill", "resize", "put", "itemset", "setfield", "part
                    "setflags", "append", "extend", "clear", "update", "pop", "remove", "insert", "setdiag"}
 INPLACE_FUNCS = {"np.fill_diagonal", "np.put", "np.place", "np.copyto", "np.putmask", "random.shuffle",
                  "np.random.shuffle", "rd.shuffle"}
+# methods (of any object) documented to modify their first argument in place
+INPLACE_ARG0 = {"normalize_time_series_array", "normalize_time_series", "shuffle"}
 LA = "@link_attributes"
 NA_ = "@node_attributes"
 
@@ -262,6 +264,7 @@ class Analyzer:
         args = mi.node.args.args
         self.selfname = args[0].arg if args and mi.kind not in ("static",) else None
         self.aliases = {}       # local name -> field it aliases (x = self.f  => in-place ops on x hit f)
+        self.params = [a.arg for a in args[1:]] if self.selfname else [a.arg for a in args]
         self.consts = {p: v for p, v in self.consts.items() if not self.reassigned(p)}
         self.none = {k for k, v in self.consts.items() if v is None}
 
@@ -455,8 +458,11 @@ class Analyzer:
             elif isinstance(value, ast.Call):
                 # x = self.cached_method(): in-place edits of x hit the cached value of that method
                 fn = value.func
+                d = dotted(fn)
                 if isinstance(fn, ast.Attribute) and self.is_self(fn.value):
                     self.aliases[t.id] = "@result:" + fn.attr
+                elif d and self.selfname and d.startswith(self.selfname + "."):
+                    self.aliases[t.id] = "@result:" + d[len(self.selfname) + 1:]
                 else:
                     self.aliases.pop(t.id, None)
             else:
@@ -476,6 +482,12 @@ class Analyzer:
     # ---- store targets
     def target(self, t, value, aug=None):
         if isinstance(t, ast.Name):
+            if aug is not None and t.id in self.aliases:
+                f = self.aliases[t.id]      # x *= y on an ndarray alias is an in-place edit
+                return {Path(writes=frozenset([f]), inplace=frozenset([f]))}
+            if aug is not None and t.id in self.params:
+                f = "@param:" + t.id
+                return {Path(writes=frozenset([f]), inplace=frozenset([f]))}
             return {Path()}
         if isinstance(t, (ast.Tuple, ast.List)):
             eff = {Path()}
@@ -513,7 +525,34 @@ class Analyzer:
         if isinstance(root, ast.Name) and root.id in self.aliases:
             f = self.aliases[root.id]
             return self.seq(self.expr_index(t), {Path(writes=frozenset([f]), inplace=frozenset([f]))})
+        if isinstance(root, ast.Name) and root.id in self.params and not self.rebound(root.id):
+            f = "@param:" + root.id
+            return self.seq(self.expr_index(t), {Path(writes=frozenset([f]), inplace=frozenset([f]))})
         return self.expr_index(t)
+
+    def rebound(self, name):
+        """parameter re-assigned somewhere in the body (then stores hit the new object, conservatively ignored)"""
+        for n in ast.walk(self.mi.node):
+            if isinstance(n, ast.Assign) and any(isinstance(t, ast.Name) and t.id == name for t in n.targets):
+                return True
+        return False
+
+    def arg_target(self, a):
+        """what an actual argument expression denotes: field / cached result / own parameter, or None (fresh)"""
+        if isinstance(a, ast.Name):
+            if a.id in self.aliases:
+                return self.aliases[a.id]
+            if a.id in self.params and not self.rebound(a.id):
+                return "@param:" + a.id
+            return None
+        f = self.field_of(a)
+        if f is not None and not isinstance(a, ast.Call):
+            return f
+        if isinstance(a, ast.Call):
+            d = dotted(a.func)
+            if d and self.selfname and d.startswith(self.selfname + "."):
+                return "@result:" + d[len(self.selfname) + 1:]
+        return None
 
     def expr_index(self, t):
         eff = {Path()}
@@ -599,14 +638,42 @@ class Analyzer:
             return self.call(n)
         return {Path()}
 
+    def bind_params(self, mi, call, paths):
+        """translate the callee's '@param:p' in-place effects to what the actual arguments denote"""
+        if not any(x.startswith("@param:") for p in paths for x in p.inplace):
+            return paths
+        a = mi.node.args
+        names = [x.arg for x in a.args][1:] if mi.kind != "static" else [x.arg for x in a.args]
+        actual = dict(zip(names, call.args))
+        for kw in call.keywords:
+            if kw.arg:
+                actual[kw.arg] = kw.value
+        out = set()
+        for p in paths:
+            w, ip = set(p.writes), set(p.inplace)
+            for x in list(ip):
+                if x.startswith("@param:"):
+                    ip.discard(x)
+                    w.discard(x)
+                    tgt = self.arg_target(actual.get(x[7:])) if x[7:] in actual else None
+                    if tgt is not None:
+                        ip.add(tgt)
+                        w.add(tgt)
+            out.add(Path(p.reads, frozenset(w), p.ctr, frozenset(ip)))
+        return out
+
     def call(self, n):
         f = n.func
         dn = dotted(f)
+        if isinstance(f, ast.Attribute) and f.attr in INPLACE_ARG0 and n.args:
+            tgt = self.arg_target(n.args[0])
+            if tgt is not None:
+                return {Path(writes=frozenset([tgt]), inplace=frozenset([tgt]))}
         # self.m(...)
         if isinstance(f, ast.Attribute) and self.is_self(f.value):
             mi = self.prog.resolve(self.K, f.attr)
             if mi is not None and mi.kind != "getter":
-                return set(self.prog.summary(self.K, mi, self.stack, self.none_args(mi, n)))
+                return self.bind_params(mi, n, set(self.prog.summary(self.K, mi, self.stack, self.none_args(mi, n))))
             return {Path()}
         # Base.m(self, ...)
         if isinstance(f, ast.Attribute) and isinstance(f.value, ast.Name) and f.value.id in self.prog.classes \
